@@ -701,7 +701,8 @@ class PSFPhotometry(ModelImageMixin):
                                init_params[ycolname])
         else:
             group_id = init_params['id'].copy()
-        init_params['group_id'] = group_id
+        if 'group_id' not in init_params.colnames:
+            init_params['group_id'] = group_id
 
         # add columns for any additional parameters that are fit
         for param_name, colname in self._param_maps['init'].items():
